@@ -76,6 +76,7 @@ type g struct {
 	trueBools  map[string]bool // same for item bool fields
 	usedLists  map[string]bool
 	usedImgs   map[string]bool
+	mustVars   map[string]bool // variables every data set supplies (the root of a deep chain prints them: see deepChain)
 	names      []string // the template names of this history (tplNames or exoticNames)
 	twoEngines bool     // calls on another engine are mixed into the history
 	n          int      // label counter
@@ -506,7 +507,7 @@ func (x *g) list(s *schema, depth int) []Val {
 func (x *g) data() Data {
 	d := Data{Vars: map[string]Val{}, Conds: map[string]bool{}, Lists: map[string][]Val{}, Images: map[string]gen.Img{}}
 	for _, v := range varNames {
-		if (x.usedVars[v] && x.chance(72, "vpres")) || (!x.usedVars[v] && x.chance(15, "vextra")) {
+		if x.mustVars[v] || (x.usedVars[v] && x.chance(72, "vpres")) || (!x.usedVars[v] && x.chance(15, "vextra")) {
 			d.Vars[v] = x.scalar()
 		}
 	}
